@@ -226,6 +226,20 @@ CHECKS = {
             F("FuzzC16PEM", "45s"),
         ],
     },
+    "C17": {
+        "pkg": "c17", "level": "fault_enumeration",
+        "manifest": {
+            "text": "real crypki.NewSigner against harness-run gRPC-over-TLS Signing servers on loopback aliases sharing one port; every success / failure vector over lists of length 0..3 is enumerated, longer lists, reply shapes, status codes and request contents are generated; the back-off is checked as a pure function over its whole parameter space with weight on the overflow region",
+            "note": "retries = 1 so that a case costs milliseconds (the retry interceptor itself is third-party); one failure kind per endpoint; back-off evaluated 3 times per case because its jitter is random",
+            "technique": "fault-vector enumeration + property-based testing (rapid); oracle = call records of the fake servers (order, proto.Equal) and a closed-form bound",
+        },
+        "assumptions": ["loopback aliases 127.0.0.2..5 can be bound on one common port", "status codes stand for the CA's RPC failures"],
+        "subchecks": [
+            E("TestC17Vectors"),
+            R("TestC17Failover", 100, 600, qs=2),
+            R("TestC17Backoff", 50000, 1000000),
+        ],
+    },
     "C19": {
         "pkg": "c19", "level": "exploration",
         "manifest": {
